@@ -30,7 +30,16 @@ def _norm(x):
     x = json.loads(json.dumps(x, sort_keys=True))
     if isinstance(x, dict) and "exc" in x:
         x.pop("msg", None)      # the statement asks for the same error CLASS; message texts are compared where they are output (CLI items)
+        x.pop("chained", None)  # implicit exception chaining exists on 3.x only
     return x
+
+
+NEW_UNICODE = ("\U0001f970", "\U0001f9a5", "\U0001fad0", "\U0001f6dd", "\U0001fae8", "\u0c77", "\u9fef", "\U00016fe4", "\u2e52", "\U0001e030", "\u1c89")
+
+
+def nonascii_argv(item):
+    """command line with a non-ASCII character: 2.7 hands the program bytes"""
+    return item[0] == "cli" and any(ord(c) > 127 for a in item[1] for c in a)
 
 
 def u180e_answer(item):
@@ -78,6 +87,8 @@ def _diff_failure(item, want, got, pyver):
     key = None
     if pyver.startswith("2.") and u180e_answer(item):
         key = "py2.interactive.u180e-white-space"
+    if pyver.startswith("2.") and nonascii_argv(item):
+        key = "py2.cli.non-ascii-argv"
     if float_syntax_item(item):
         key = "rh.score-syntax-of-float"
     if isinstance(want, dict) and isinstance(got, dict):
@@ -91,7 +102,8 @@ def _diff_failure(item, want, got, pyver):
 
 CHECKS = {"item": check_item}
 
-WITNESSES = [["interactive", 3.1, False, ["\u180en", "l", "n", "n", "u", "h", "h", "h"]],
+WITNESSES = [["cli", ["-3", "--vector=CVSS:3.1/AV:N/AC:L/PR:N/UI:N/S:U/C:H/I:H/A:\u00e9"], None],
+             ["interactive", 3.1, False, ["\u180en", "l", "n", "n", "u", "h", "h", "h"]],
              ["interactive", 3.1, False, ["\u00a0n", "l", "n", "n", "u", "h", "h", "h"]],
              ["interactive", 3.1, False, ["\x1cn\x1f", "l", "n", "n", "u", "h", "h", "h"]],
              ["interactive", 4.0, True, ["n", "l", "n", "n", "n", "h", "h", "h", "h", "h", "n"] + [""] * 17 + ["\u0131", "", "", "", ""]],
@@ -101,12 +113,14 @@ WITNESSES = [["interactive", 3.1, False, ["\u180en", "l", "n", "n", "u", "h", "h
 ASCII_PRINTABLE = "".join(chr(c) for c in range(32, 127))
 
 
-def _no_surrogates(x):
-    """lone surrogates cannot be handed to every interpreter in the same way (narrow 2.7 builds, bytes argv): C04 has them"""
+def _no_surrogates(x, keep_bytes=False):
+    """lone surrogates cannot be handed to every interpreter in the same way (narrow 2.7 builds, bytes argv): C04 has them.
+    In answer scripts U+DC80..U+DCFF stay: they stand for undecodable bytes"""
     if isinstance(x, type("")):
-        return "".join("?" if 0xD800 <= ord(c) <= 0xDFFF else c for c in x)
+        return "".join("?" if 0xD800 <= ord(c) <= 0xDFFF and not (keep_bytes and 0xDC80 <= ord(c) <= 0xDCFF) else c for c in x)
     if isinstance(x, list):
-        return [_no_surrogates(y) for y in x]
+        keep = keep_bytes or (len(x) == 4 and x[0] == "interactive")
+        return [_no_surrogates(y, keep) for y in x]
     return x
 
 
@@ -166,19 +180,28 @@ def corpus_part(n_examples, shard):
             V = spec.VERS[interact.verkey(version)]
             order = interact.probe_order(version, allm) or list(V.order if allm else V.mandatory)
             answers, meta = draw(interact.script_strategy(version, allm, order))
+            if draw(st.integers(0, 4)) == 0 and answers:
+                # an answer with bytes that are not valid UTF-8 (written as U+DC80..U+DCFF): never a legal value
+                junk = draw(st.sampled_from(("\udcff", "\udcc3", "\udc80", "\udce2\udc82", "\udcfe")))
+                vals, _ = interact.model(interact.verkey(version), order, answers)
+                m0 = order[0]
+                chosen = vals[0][1] if vals else None
+                others = [v for v in V.table[m0] if v != chosen] or list(V.table[m0])
+                v2 = draw(st.sampled_from(others))      # ANOTHER legal value of the first question, spoilt by the bytes: must be asked again
+                answers = [draw(st.sampled_from((junk + v2, v2 + junk, v2[:1] + junk + v2[1:])))] + answers
+                return "interactive-bytes", ["interactive", version, allm, answers]
             return kind, ["interactive", version, allm, answers]
         from . import c17
         while True:
             inp, mode, nflags = draw(c17.case_strategy())
-            ascii_ok = all(all(c in ASCII_PRINTABLE for c in a) for a in inp["argv"])
-            if kind == "cli-vector" and inp["stdin"] is None and ascii_ok:
-                return kind, ["cli", inp["argv"], None]
-            if kind == "cli-interactive" and inp["stdin"] is not None and ascii_ok:
-                return kind, ["cli", inp["argv"], inp["stdin"]]
-            if not ascii_ok:
-                # keep the structure, make argv printable ASCII (2.7 receives argv as bytes)
-                argv = ["".join(c if c in ASCII_PRINTABLE else "?" for c in a) for a in inp["argv"]]
-                return "cli-vector", ["cli", argv, inp["stdin"]]
+            argv = [a.replace("\x00", "?") for a in inp["argv"]]
+            if draw(st.integers(0, 5)) == 0 and any(a.startswith("--vector=") for a in argv):
+                # characters of recent Unicode versions (10 ... 15): what an interpreter's own tables say about them differs
+                argv = [a + draw(st.sampled_from(NEW_UNICODE)) if a.startswith("--vector=") else a for a in argv]
+            if kind == "cli-vector" and inp["stdin"] is None:
+                return kind, ["cli", argv, None]
+            if kind == "cli-interactive" and inp["stdin"] is not None:
+                return kind, ["cli", argv, inp["stdin"]]
 
     @runner.seeded(20, shard)
     @runner.hyp_settings(n_examples, shrink=False)
@@ -254,7 +277,7 @@ def run(tier, t0):
             # report the smallest differing item per (interpreter, item kind)
             smallest = {}
             for it, w, g in bad:
-                k = (it[0], u180e_answer(it), float_syntax_item(it))
+                k = (it[0], u180e_answer(it), float_syntax_item(it), nonascii_argv(it))
                 if k not in smallest or len(json.dumps(it)) < len(json.dumps(smallest[k][0])):
                     smallest[k] = (it, w, g)
             for it, w, g in smallest.values():
@@ -271,6 +294,6 @@ def run(tier, t0):
                          ["reference interpreter: /venv/bin/python (3.12), tied to the specification by C01-C17",
                           "hash() values and the key order of unsorted dicts are not observables; text-extraction results compared sorted",
                           "interpreters found: %s" % ", ".join(found)],
-                         required=["kind:" + k for k in ("ctor-valid", "ctor-mutant", "ctor-long", "cli-long", "ctor-text", "ctor-cross", "rh", "rh-bad", "rh-near", "rh-float-syntax", "text", "interactive", "cli-vector", "cli-interactive", "interactive-nonascii")]
+                         required=["kind:" + k for k in ("ctor-valid", "ctor-mutant", "ctor-long", "cli-long", "ctor-text", "ctor-cross", "rh", "rh-bad", "rh-near", "rh-float-syntax", "text", "interactive", "interactive-bytes", "cli-vector", "cli-interactive", "interactive-nonascii")]
                          + ["python:" + f for f in found],
                          extra={"interpreters": found + ["venv-3.12 (reference)"], "corpus_items": len(items)})
